@@ -19,6 +19,7 @@ pub static PROP: Prop = Prop {
         "dependency relation: y depends on x iff some target node of x is a source node of y (from the property statement)",
         "no exact layer is demanded beyond: strictly increasing along dependencies, minimum 0, number of distinct layers = longest chain",
     ],
+    fixed: None,
 };
 
 pub struct LayerRef {
